@@ -87,7 +87,19 @@ fn obs_f64(lit: &str) -> String {
         let c = show_res(&serde_json::from_reader::<_, Vec<f64>>(Chunked::new(doc.as_bytes(), vec![3, 1])),
                          |v| if v.len() == 2 && v[0].to_bits() == v[1].to_bits() { b64(&v[0]) } else { "LEN".into() });
         let d = show_res(&serde_json::from_str::<Value>(&l), |v| match v.as_f64() { Some(f) => b64(&f), None => "E".into() });
-        merge(vec![a, b, c, d])
+        // one Deserializer: an f32 read that fails (wrong type / out of f32 range / null), then this literal as f64 —
+        // the f64 must not depend on what was attempted before it (reported only when it differs from the one-shot result)
+        let bad = ["\"n/a\"", "1e39", "null", "-3.5e38"][l.len() % 4];
+        let two = format!("{} {}", bad, l);
+        let e = {
+            use serde::Deserialize;
+            let mut de = serde_json::Deserializer::from_str(&two);
+            let first = f32::deserialize(&mut de);
+            if first.is_ok() { "FIRST-OK".to_string() } else { show_res(&f64::deserialize(&mut de), b64) }
+        };
+        let mut parts = vec![a, b, c, d];
+        if e != parts[0] { parts.push(format!("after-failed-f32:{}", e)); }
+        merge(parts)
     })
 }
 /// f32 target: str, slice, chunked reader
@@ -255,6 +267,26 @@ pub fn literals(r: &mut Rng, thorough: bool) -> Vec<(String, &'static str)> {
         let frac = match r.below(4) { 0 => *r.pick(&[0u64, 1, 2, 0xfffffffffffff, 0xffffffffffffe, 0x8000000000000]), _ => r.next() & 0xfffffffffffff };
         let (m, e) = f64_parts((be << 52) | frac);
         midpoint_variants(r, m, e, &mut v, thorough);
+    }
+    // midpoints cut to 19–22 significant digits (just below) and bumped in the last kept digit (just above): literals a
+    // hair away from a tie whose mantissa overflows u64 by one or two digits — the moderate path's truncation bookkeeping.
+    // Three quarters of them have their leading digits in [1.8446744, 2.3058430] (19 digits fill 61 bits: largest
+    // normalisation shift of the truncated mantissa).
+    for i in 0..(if thorough { 60000 } else { 6000 }) {
+        let f: f64 = if i % 4 != 0 {
+            let mant = 1.8446744 + (r.below(4_611_686) as f64) * 1e-7;
+            format!("{}e{}", mant, r.below(600) as i32 - 300).parse().unwrap()
+        } else { f64::from_bits(((1 + r.below(2045) as u64) << 52) | (r.next() & 0xfffffffffffff)) };
+        let (m, e) = f64_parts(f.to_bits());
+        let (d, x) = exact_decimal(2 * m + 1, e - 1);
+        for k in [19usize, 20, 21, 22] {
+            if d.len() <= k { continue; }
+            let cut = &d[..k]; let xe = x + (d.len() - k) as i32;
+            if k == 20 || k == 21 || r.chance(1, 3) {
+                v.push((spell(cut, xe, [0, 2, 4][r.below(3)]), "mid-k-below"));
+                v.push((spell(&perturb(cut, true), xe, [0, 2, 4][r.below(3)]), "mid-k-above"));
+            }
+        }
     }
     // the two ends of the range: half the least subnormal and the overflow threshold, always
     midpoint_variants(r, 0, -1074, &mut v, true);
